@@ -588,7 +588,9 @@ def gen_sizes(rng):
     np = _np()
 
     def npint(x):
-        return rng.choice([np.int64, np.int32, np.intp])(x) if rng.random() < 0.33 else x
+        # (unsigned and 8 / 16-bit types for the values they hold: what indexing / counting on arrays hands over)
+        kinds = [np.int64, np.int32, np.intp, np.int8, np.int16] + ([np.uint8, np.uint16, np.uint32, np.uint64] if x >= 0 else [])
+        return rng.choice(kinds)(x) if rng.random() < 0.33 else x
 
     out = []
     for _ in range(3):
@@ -601,7 +603,13 @@ def gen_sizes(rng):
             lo, hi = -rng.randint(0, 2), rng.randint(0, 2)
             if lo == 0 and hi == 0:
                 hi = 1
-            out.append((npint(lo), npint(hi)))
+            pair = (npint(lo), npint(hi))
+            if lo < 0 and type(pair[0]) is int and isinstance(pair[1], np.unsignedinteger):
+                # (a negative Python int next to an UNSIGNED numpy int: `hi - lo` raises OverflowError in numpy 2 before
+                # supersize can look at the range - candidate C04-supersize-unsigned-mixed-tuple in docs/C04.md, an input
+                # form outside the property's quantifier; both numpy-typed, or a zero / signed partner, are generated)
+                pair = (np.int64(lo), pair[1])
+            out.append(pair)
     return out
 
 
@@ -762,7 +770,9 @@ def gen_uvws_form(rng, U):
     if r < 0.25:
         return [list(x) for x in U], 'int-list', True
     if r < 0.33:
-        return np.array(U, dtype=rng.choice(['int16', 'int32', 'int64'])), 'int-array', True
+        if min(x for row in U for x in row) >= 0 and rng.random() < 0.5:
+            return np.array(U, dtype=rng.choice(['uint8', 'uint16', 'uint64'])), 'uint-array', True
+        return np.array(U, dtype=rng.choice(['int8', 'int16', 'int32', 'int64'])), 'int-array', True
     if r < 0.41:
         return Uf, 'float', True
     if r < 0.58:
@@ -1292,6 +1302,15 @@ def _check_new_vectors(ctx, key, what, sysm, U, new, T, replay):
     return True
 
 
+def _shared_memory(np, sysm, new):
+    """names of the per-atom arrays of `new` that share memory with those of `sysm` (a result must be a new system)."""
+    out = []
+    for k in new.atoms_prop():
+        if k in sysm.atoms_prop() and np.shares_memory(np.asarray(new.atoms.view[k]), np.asarray(sysm.atoms.view[k])):
+            out.append(k)
+    return out
+
+
 def _oracle_rotate(ctx, am, sysm, fam, spos, U, d, arg, form, accepted, key, tol=None):
     """all clauses for one rotate call; `U` are the integers `arg` stands for."""
     np = _np()
@@ -1299,17 +1318,20 @@ def _oracle_rotate(ctx, am, sysm, fam, spos, U, d, arg, form, accepted, key, tol
     uv = np.asarray(arg, dtype=float).tolist()
     replay = {'op': 'rotate', 'family': fam, 'case': sysm._c04, 'vects': sysm.box.vects.tolist(),
               'origin': sysm.box.origin.tolist(), 'spos': [[float(x) for x in sp] for sp in spos],
-              'atype': sysm.atoms.atype.tolist(), 'U': U, 'uvws': uv, 'form': form, 'accepted': accepted, 'tol': tol}
+              'atype': sysm.atoms.atype.tolist(), 'U': U, 'uvws': uv, 'form': form, 'accepted': accepted,
+              'tol': (np.asarray(tol).tolist() if isinstance(tol, (np.ndarray, np.floating)) else tol)}
     pbc_in = [bool(x) for x in sysm.pbc]
     what = (f'rotate uvws={uv} ({form}; integers {U}, det {d}; {fam}; pbc {pbc_in}'
             + (f'; history on the object {sysm._c04["history"]}' if sysm._c04['history'] else '') + ')'
             + (f' tol={tol}' if tol is not None else ''))
     before = (sysm.atoms.pos.copy(), sysm.box.vects.copy(), sysm.box.origin.copy(), sysm.atoms.atype.copy())
+    # (the flag as True / 1 / numpy.True_: truthiness is the documented meaning of a bool option)
+    flag = (True, 1, np.True_)[sum(abs(int(x)) for row in U for x in row) % 3]
     try:
         if tol is None:
-            new, T = sysm.rotate(arg, return_transform=True)
+            new, T = sysm.rotate(arg, return_transform=flag)
         else:
-            new, T = sysm.rotate(arg, tol=tol, return_transform=True)
+            new, T = sysm.rotate(arg, tol=tol, return_transform=flag)
     except Exception as e:  # noqa
         if not accepted and isinstance(e, ValueError):
             return
@@ -1326,6 +1348,10 @@ def _oracle_rotate(ctx, am, sysm, fam, spos, U, d, arg, form, accepted, key, tol
         ctx.violate(key + ':input-mutated', f'{what}: rotate changed the system it was called on (box '
                     f'{before[1].tolist()} at {before[2].tolist()} -> {sysm.box.vects.tolist()} at '
                     f'{sysm.box.origin.tolist()}, pbc {pbc_in} -> {[bool(x) for x in sysm.pbc]})', replay)
+    shared = _shared_memory(np, sysm, new)
+    if shared:
+        ctx.violate(key + ':aliases-input', f'{what}: the result shares memory with the system it was made from ({shared}): '
+                    f'editing the new cell would edit the original', replay)
     cl = cleanup_extra(np, np.array(U, dtype=float) @ sysm.box.vects)
     if cl:
         # the clean-up of the Box.vects setter removed a tilt component of the normalized cell: compared at that bound
@@ -1379,6 +1405,10 @@ def search(ctx, broken):
         if not (np.array_equal(before[0], sysm.atoms.pos) and np.array_equal(before[1], sysm.box.vects)
                 and np.array_equal(before[2], sysm.box.origin)):
             ctx.violate('supersize:input-mutated', f'{what} changed its input system', replay)
+        shared = _shared_memory(np, sysm, new)
+        if shared:
+            ctx.violate('supersize:aliases-input', f'{what}: the result shares memory with the system it was made from '
+                        f'({shared})', replay)
     # refusals of supersize: zero multipliers (int, numpy int, empty tuple), tuple ranges that do not contain 0,
     # non-integers, lists, tuples of the wrong length
     sysm, fam, spos = gen_system(rng, am)
@@ -1409,7 +1439,8 @@ def search(ctx, broken):
         arg, form, accepted = gen_uvws_form(rng, U) if it >= len(FIXED_U) else (U, 'int-list', True)
         # the documented `tol` option (float or list): any ladder must give the same crystal
         # (values that are not 1e-k: the generated face distances are never exactly one rung)
-        tol = rng.choice([None] * 8 + [2.3e-5, 7e-9, [1.7e-6, 1.1e-8], (1.3e-4,), [1.1e-3, 2.3e-5]])
+        tol = rng.choice([None] * 8 + [2.3e-5, 7e-9, [1.7e-6, 1.1e-8], (1.3e-4,), [1.1e-3, 2.3e-5], np.float64(2.3e-5),
+                                      np.array([1.7e-6, 1.1e-8])])
         ctx.stats.case('oracle:rotate', (fam, repr(np.asarray(arg).tolist()), tuple(spos), repr(tol)))
         _oracle_rotate(ctx, am, sysm, fam, spos, U, d, arg, form, accepted, 'rotate', tol=tol)
     # exactly ON a rung of the ladder (single, unambiguous placements): the rung may miscount, the next one must deliver
@@ -1600,15 +1631,17 @@ def _search_counts(ctx, rng, am, scale=1):
     # rotate: a bounding supercell spanning n cells along one axis (n - 2 of them inside the new cell): the trap values
     # below 120 on every run, a rotating sample of the others (thorough: every n up to 130 and every trap up to 260)
     small = [k for k in traps if k <= 120]
-    spans = sorted(set(small + rng.sample(range(3, 130), ctx.n(6, 40) * scale) + rng.sample([k for k in traps if k > 120] or [49], ctx.n(1, 6))
-                       + (list(range(3, 131)) + traps if ctx.thorough else [])))
+    spans = sorted(set(small + rng.sample(range(3, 130), ctx.n(6, 40) * scale) + rng.sample([k for k in traps if 120 < k <= 260] or [49], ctx.n(1, 6))
+                       + (list(range(3, 131)) + [k for k in traps if k <= 260] if ctx.thorough else [])))
     for n in spans:
         sysm, fam, pts = grid_system(am, rng, rng.choice([1, 1, 2]), G=G)
         axis = rng.randrange(3)
         U = [[1 if i == j else 0 for j in range(3)] for i in range(3)]
         sg = rng.choice([-1, 1])
-        k = rng.randint(0, n - 3) if (n > 3 and rng.random() < 0.5) else 0
-        # the long vector [n-2-k, 0, 0] and a second one sheared by k along it: the corners span n - 2 cells (+ 2 of padding)
+        k = rng.randint(0, min(n - 3, 12)) if (n > 3 and rng.random() < 0.5) else 0
+        # the long vector [n-2-k, 0, 0] and a second one sheared by k <= 12 along it (larger shears against a short first
+        # vector make the new cell vectors nearly parallel: the float error of normalize's transform grows with that
+        # condition number beyond the derived bound): the corners span n - 2 cells (+ 2 of padding)
         U[axis][axis] = (n - 2 - k) * sg
         U[(axis + 1) % 3][axis] = k * sg
         d = _det3(U)
@@ -1620,14 +1653,14 @@ def _search_counts(ctx, rng, am, scale=1):
            (4097, (1, 2, 1)), (2049, (1, 1, -2)), (1025, (2, 2, 1)), (1, (1, 1, 4097)), (1023, (1, -3, 1))]
     if ctx.thorough:
         big += [(1, (65537, 1, 1)), (1, (15, 17, 257)), (1, (16, 64, 64)), (65537, (1, 1, 1)), (65535, (1, 2, 1)), (8193, (2, 1, 2))]
-    todo = big if ctx.thorough else rng.sample(big, 2 * scale if 2 * scale <= len(big) else len(big))
-    for natoms, sizes in todo:
-        sysm, fam, pts = grid_system(am, rng, natoms)
+    for natoms, sizes in big:
+        gseed = rng.getrandbits(32)
+        sysm, fam, pts = grid_system(am, random.Random(gseed), natoms)
         ns = [norm_size(x) for x in sizes]
         M = math.prod(h - l for l, h in ns)
         what = f'supersize{sizes} of a {natoms}-atom {fam} cell ({natoms * M} atoms)'
-        replay = {'op': 'supersize-big', 'natoms': natoms, 'sizes': list(sizes), 'vects': sysm.box.vects.tolist(),
-                  'origin': sysm.box.origin.tolist()}
+        replay = {'op': 'supersize-big', 'natoms': natoms, 'sizes': [list(x) for x in ns], 'grid_seed': gseed,
+                  'vects': sysm.box.vects.tolist(), 'origin': sysm.box.origin.tolist()}
         ctx.stats.case('oracle:supersize-big', (natoms, sizes, fam))
         try:
             new = sysm.supersize(*sizes)
@@ -1637,14 +1670,16 @@ def _search_counts(ctx, rng, am, scale=1):
         _fast_same_crystal(ctx, 'supersize', what, sysm, pts, 8192, new, I3, M, replay,
                            shifts=set(itertools.product(*[range(l, h) for l, h in ns])))
     # rotate of a large input (unimodular and small-determinant vectors)
-    for natoms in (big_n for big_n in (rng.sample([1023, 1025, 2049, 4095, 4096, 4097], 1) if not ctx.thorough
+    for natoms in (big_n for big_n in (rng.sample([1023, 1025, 2049, 4095, 4096], 1) + [4097] if not ctx.thorough
                                        else [1023, 1025, 2049, 4095, 4096, 4097, 8193])):
-        sysm, fam, pts = grid_system(am, rng, natoms)
+        gseed = rng.getrandbits(32)
+        sysm, fam, pts = grid_system(am, random.Random(gseed), natoms)
         U = rng.choice([[[0, 1, 0], [0, 0, 1], [1, 0, 0]], [[1, 1, 0], [0, 1, 0], [0, 0, 1]], [[1, 0, 0], [0, 1, 0], [0, 0, 1]],
                         [[1, -1, 0], [1, 1, 0], [0, 0, 1]], [[2, 0, 0], [0, 1, 0], [0, 0, 1]]])
         d = _det3(U)
         what = f'rotate {U} of a {natoms}-atom {fam} cell'
-        replay = {'op': 'rotate-big', 'natoms': natoms, 'U': U, 'vects': sysm.box.vects.tolist(), 'origin': sysm.box.origin.tolist()}
+        replay = {'op': 'rotate-big', 'natoms': natoms, 'U': U, 'grid_seed': gseed, 'vects': sysm.box.vects.tolist(),
+                  'origin': sysm.box.origin.tolist()}
         ctx.stats.case('oracle:rotate-big', (natoms, repr(U), fam))
         try:
             new, T = sysm.rotate(U, return_transform=True)
@@ -1987,8 +2022,11 @@ def _run_conversion(ctx, am, case):
     conv = build_conv(am, case)
     replay = case
     kw = {}
+    nb = len(case['stored']) + len(case['atype']) + int(10 * case['vects'][0][0])
     if not case.get('check_family', True):
-        kw['check_family'] = False
+        kw['check_family'] = (False, 0, np.False_)[nb % 3]       # (falsy / truthy non-bools mean what bools mean)
+    elif nb % 7 == 3:
+        kw['check_family'] = (1, np.True_)[nb % 2]
     dec = case.get('decimals')
     if dec is not None:
         kw['atol'] = case['atol']
@@ -2005,7 +2043,7 @@ def _run_conversion(ctx, am, case):
     before = conv.atoms.pos.copy()
     try:
         prim, T1 = conv.dump('conventional_to_primitive', setting=case['call_setting'], return_transform=True,
-                             check_basis=case['check_basis'], **kw)
+                             check_basis=(case['check_basis'] if nb % 5 else (np.True_ if case['check_basis'] else 0)), **kw)
         conv2, T2 = prim.dump('primitive_to_conventional', setting=setting, return_transform=True)
     except Exception as e:  # noqa
         if isinstance(e, ValueError) and 'Filtering failed' in str(e) and any(x < 0 or x > 1 for t in case['stored'] for x in t):
@@ -2323,9 +2361,13 @@ def _corr_resolve(ctx, rng, am):
         rp = {'op': 'resolve', 'case': case, 'asked': ask, 'kw': {k_: float(v) if not isinstance(v, bool) else v for k_, v in kw.items()},
               'line': line}
         try:
-            if ask != 't':
+            if ask != 't' and it % 2 == 0:
                 # the function behind the explicit settings
                 impl = ask if check_setting_basis(conv, setting=ask, **kw) else 'err:value'
+            elif ask != 't':
+                # ... and the conversion itself (the tolerances travel from dump() to the test)
+                conv.dump('conventional_to_primitive', setting=ask, **kw)
+                impl = ask
             else:
                 prim, T = conv.dump('conventional_to_primitive', setting='t', return_transform=True, **kw)
                 impl = None
@@ -2398,6 +2440,23 @@ def replay(ctx, payload):
             _oracle_rotate(ctx, am, sysm, r.get('family', '?'), spos, r['U'], _det3(r['U']),
                            np.array(r['uvws']) if 'uvws' in r else r['U'], r.get('form', 'int-list'),
                            r.get('accepted', True), 'rotate', tol=r.get('tol'))
+    elif r.get('op') in ('supersize-big', 'rotate-big') and 'grid_seed' in r:
+        sysm, fam, pts = grid_system(am, random.Random(r['grid_seed']), r['natoms'])
+        if r['op'] == 'supersize-big':
+            sizes = [tuple(x) for x in r['sizes']]
+            new = sysm.supersize(*sizes)
+            _fast_same_crystal(ctx, 'supersize', 'replay', sysm, pts, 8192, new, np.eye(3), math.prod(h - l for l, h in sizes), r,
+                               shifts=set(itertools.product(*[range(l, h) for l, h in sizes])))
+        else:
+            new, T = sysm.rotate(r['U'], return_transform=True)
+            _fast_same_crystal(ctx, 'rotate', 'replay', sysm, pts, 8192, new, T, abs(_det3(r['U'])), r)
+    elif r.get('op') == 'resolve' and 'case' in r:
+        conv = build_conv(am, r['case'])
+        try:
+            conv.dump('conventional_to_primitive', setting=r['asked'], **r['kw'])
+            ctx.notes.append(f"replay: conventional_to_primitive(setting={r['asked']!r}) accepted the cell")
+        except Exception as e:  # noqa
+            ctx.notes.append(f"replay: conventional_to_primitive(setting={r['asked']!r}) raised {type(e).__name__}: {e}")
     elif r.get('op') == 'conversion' and 'stored' in r:
         _run_conversion(ctx, am, r)
     elif r.get('op') == 'conversion-mixed' and 'stored' in r:
